@@ -1634,6 +1634,53 @@ fn test_slice_copy() {
 }
 
 #[test]
+fn test_slice_copy_negative_step() {
+    // Trailing dims which are not covered by the slice range.
+    let tensor = Tensor::from([[5], [6]]);
+    let sliced = tensor.slice_copy(SliceRange::new(-1, None, -1));
+    assert_eq!(sliced, Tensor::from([[6], [5]]));
+
+    let tensor = Tensor::from([[1, 2, 3], [4, 5, 6]]);
+    let sliced = tensor.slice_copy(SliceRange::new(-1, None, -1));
+    assert_eq!(sliced, Tensor::from([[4, 5, 6], [1, 2, 3]]));
+
+    // Index items combined with a negative step.
+    let reversed = SliceRange::new(-1, None, -1);
+    for (index, expected) in [
+        (0, [3, 2, 1]),
+        (1, [6, 5, 4]),
+        (-1, [6, 5, 4]),
+        (-2, [3, 2, 1]),
+    ] {
+        let sliced = tensor.slice_copy((index, reversed));
+        assert_eq!(sliced, Tensor::from(expected));
+    }
+
+    // As above, but with more than 4 dims.
+    let tensor = Tensor::<i32>::arange(0, 32, None).into_shape([2, 2, 2, 2, 2].as_slice());
+    let sliced = tensor.slice_copy((-1, reversed));
+    assert_eq!(sliced.shape(), [2usize, 2, 2, 2].as_slice());
+    assert_eq!(
+        sliced.to_vec(),
+        (24..32).chain(16..24).collect::<Vec<i32>>()
+    );
+
+    let sliced = tensor.slice_copy((.., .., .., SliceRange::new(0, Some(1), 1), reversed));
+    assert_eq!(sliced.shape(), [2usize, 2, 2, 1, 2].as_slice());
+    assert_eq!(
+        sliced.to_vec(),
+        [1, 0, 5, 4, 9, 8, 13, 12, 17, 16, 21, 20, 25, 24, 29, 28]
+    );
+}
+
+#[test]
+#[should_panic(expected = "slice index 2 is invalid for axis 0 of size 2")]
+fn test_slice_copy_invalid_index() {
+    let tensor = Tensor::<i32>::zeros(&[2, 0, 2, 2, 2]);
+    tensor.slice_copy((2, SliceRange::new(-1, None, -1)));
+}
+
+#[test]
 fn test_slice() {
     // Slice static-rank array. The rank of the slice is inferred.
     let data = NdTensor::from([[[1, 2, 3], [4, 5, 6]]]);
